@@ -267,3 +267,16 @@ pub fn replay(shape_str: &str, sched: Vec<usize>, out: &str) -> Value {
     b.finish();
     json!({"runs": 1})
 }
+
+pub fn dispatch(cmd: &str, a: &std::collections::HashMap<String, String>) -> Option<Value> {
+    let (out, tier, seed) = crate::common(a);
+    match cmd {
+        "mailbox" => Some(batch(&out, &tier, seed)),
+        "mailbox-replay" => {
+            let shape = a.get("shape-str").cloned().unwrap_or_default();
+            let sched: Vec<usize> = serde_json::from_str(a.get("sched").map(|s| s.as_str()).unwrap_or("[]")).unwrap_or_default();
+            Some(replay(&shape, sched, &out))
+        }
+        _ => None,
+    }
+}
